@@ -283,7 +283,9 @@ def py_encode(ty, v, o=None, mut=None):
         drop = mut[1] if mut and mut[0] == "drop" else None
         fm = (mut[1], mut[2]) if mut and mut[0] == "ftag" else None
         if var.shape == "u":
-            body = (b"\x80" if enc == "a" else b"\xa0")
+            # the empty payload of a unit variant is re-framed like every other container (the decoder skips it, whatever its framing)
+            maj = 4 if enc == "a" else 5
+            body = (bytes([maj * 32 + 31, 0xff]) if o.indef else head(maj, 0, o))
         else:
             body = enc_body(enc, var.fields, v[2], o, drop, fm)
         if o.wrap_indef:
@@ -419,6 +421,17 @@ class VGen:
                 else:
                     vs.append(self.field_value(f, 1, None, False))
             res.append(vs)
+        # nil values one level down: a mandatory field whose own type is a struct / enum / Vec (or transparent newtype) with optional
+        # parts must also be seen with those parts absent and present, whatever the generator above drew for them
+        if any(i not in opt and not f.skip and f.codec != "x" and f.ty.kind in ("st", "en", "vec") for i, f in enumerate(fields)):
+            for top, nested in ((True, False), (False, False), (True, True), (False, True)):
+                vs = []
+                for i, f in enumerate(fields):
+                    if i in opt:
+                        vs.append(self.field_value(f, 1, top, False) if f.codec == "x" else (("so", self.value(f.ty.e, 2, nested, True)) if top else None))
+                    else:
+                        vs.append(self.field_value(f, 1, nested, True))
+                res.append(vs)
         return res
 
 
